@@ -126,6 +126,11 @@ func immutRaw(kind string, alt bool) []byte {
 		bad := rawAVP(9010, 0x40, 0, 8+40, []byte{5 ^ x, 6 ^ x, 7 ^ x, 8 ^ x, 9 ^ x, 10 ^ x, 11 ^ x, 12 ^ x}, false)
 		pay := append(inner, bad...)
 		return rawAVP(9018, 0, 0, 8+len(pay), pay, true)
+	case "ebitbad": // (in an error answer) a mandatory Failed-AVP whose member declares more than is there, then a good AVP
+		bad := rawAVP(9010, 0x40, 0, 8+40, []byte{5 ^ x, 6 ^ x, 7 ^ x, 8 ^ x, 9 ^ x, 10 ^ x, 11 ^ x, 12 ^ x}, false)
+		return append(rawAVP(279, 0x40, 0, 8+len(bad), bad, true), rawAVP(9001, 0x40, 0, 12, []byte{1 ^ x, 2 ^ x, 3 ^ x, 4 ^ x}, true)...)
+	case "emptygroup": // groups without members (what the owner of ANOTHER message does to its own empty group stays there)
+		return append(rawAVP(9018, 0x40, 0, 8, nil, true), rawAVP(9001, 0x40, 0, 12, []byte{1 ^ x, 2 ^ x, 3 ^ x, 4 ^ x}, true)...)
 	case "u32len8": // an Unsigned32-typed AVP and a Time-typed AVP carrying 8 octets each
 		pay := []byte{1 ^ x, 2 ^ x, 3 ^ x, 4 ^ x, 5 ^ x, 6 ^ x, 7 ^ x, 8 ^ x}
 		return append(rawAVP(9001, 0x40, 0, 8+len(pay), pay, true), rawAVP(9008, 0x40, 0, 8+len(pay), pay, true)...)
@@ -152,6 +157,9 @@ func immutWire(c *immutCase, size string, alt bool, dp *dict.Parser) []byte {
 				fill = 0xEE
 			}
 			body = append(body, rawAVP(9010, 0x40, 0, 8+1500, bytes.Repeat([]byte{fill}, 1500), true)...)
+		}
+		if c.Kind == "ebitbad" {
+			return msgBytes(body, abs.VCmd, abs.VApp, 0x20) // an answer with the E bit
 		}
 		return msgBytes(body, abs.VCmd, abs.VApp, 0x80)
 	}
@@ -201,6 +209,19 @@ func snapshot(m *diam.Message) string {
 		return "panic:" + p
 	}
 	return hex.EncodeToString(h.Sum(nil))[:16]
+}
+
+// fillEmptyGroups: the owner of a message adds a member to every empty group of ITS message
+func fillEmptyGroups(as []*diam.AVP) {
+	for _, a := range as {
+		if g, ok := a.Data.(*diam.GroupedAVP); ok {
+			if len(g.AVP) == 0 {
+				g.AddAVP(diam.NewAVP(9001, 0x40, 0, datatype.Unsigned32(99)))
+			} else {
+				fillEmptyGroups(g.AVP)
+			}
+		}
+	}
 }
 
 func runImmut(id int, c *immutCase, dp *dict.Parser) immutLine {
@@ -259,7 +280,9 @@ func runImmut(id int, c *immutCase, dp *dict.Parser) immutLine {
 		w := immutWire(c, h.Size, true, dp)
 		switch h.How {
 		case "same":
-			diam.ReadMessage(bytes.NewReader(w), dp)
+			if lm, err := diam.ReadMessage(bytes.NewReader(w), dp); err == nil && c.Kind == "emptygroup" {
+				fillEmptyGroups(lm.AVP)
+			}
 		case "goroutine":
 			done := make(chan struct{})
 			go func() {
